@@ -28,6 +28,7 @@ SELS = [['T', 'H2O'], ['planet_radius', 'T', 'H2O']]
 SEL_NAMES = [['T', 'log_H2O'], ['planet_radius', 'T', 'log_H2O']]       # names the optimizer reports (H2O is fitted in log)
 DERS = [['logg', 'avg_T', 'mu'], ['avg_T', 'mu']]
 FIT_ALL = ['planet_radius', 'T', 'H2O']
+FIXED_AT = {'planet_radius': 1.0, 'T': 1000.0, 'H2O': 1e-4}
 PROFILE_KEYS = ['temp_profile', 'active_mix_profile', 'inactive_mix_profile', 'density_profile',
                 'altitude_profile', 'pressure_profile', 'mu_profile']
 
@@ -80,6 +81,7 @@ class Session(object):
         self.opt.set_boundary('T', [300.0, 3000.0])
         self.opt.set_boundary('H2O', [1e-9, 1e-1])
         self.opt.set_boundary('planet_radius', [0.5, 1.5])
+        self.nselect = 0
         self.select_fit(sel0)
         self.select_derived(der0)
         self.payload = None
@@ -90,11 +92,15 @@ class Session(object):
         self.opt.set_observed(self.observations[o])
 
     def select_fit(self, s):
+        """A parameter taken out of the fit is FIXED at a definite value (what a user does; left alone it would keep
+        whatever sample the last post-processing step of this process happened to evaluate)."""
+        self.nselect += 1
         for n in FIT_ALL:
             if n in SELS[s]:
                 self.opt.enable_fit(n)
             else:
                 self.opt.disable_fit(n)
+                self.model[n] = FIXED_AT[n] * (1.0 + 0.01 * (self.nselect - 1))
 
     def select_derived(self, d):
         for n in list(self.model.derivedParameters):
